@@ -4,6 +4,7 @@ package main
 
 import (
 	"fmt"
+	"go/token"
 	"sort"
 	"strings"
 
@@ -129,4 +130,98 @@ func isLoopHeader(b *ssa.BasicBlock) bool {
 		}
 	}
 	return false
+}
+
+// stateConstSets: for every module function, the set of state constants its own branches compare a State-named field with.
+func (c *Ctx) stateConstSets() map[*ssa.Function]map[string]bool {
+	out := map[*ssa.Function]map[string]bool{}
+	isStateValue := func(v ssa.Value, d int) bool { return false }
+	isStateValue = func(v ssa.Value, d int) bool {
+		v = resolve(v)
+		if _, n, ok := fieldLoad(v); ok && (n == "State" || n == "NewState") {
+			return true
+		}
+		// a string parameter that every caller binds to a State field (isClosedState(task.State))
+		if prm, ok := v.(*ssa.Parameter); ok && d < 2 {
+			sites := c.callers[prm.Parent()]
+			if len(sites) == 0 {
+				return false
+			}
+			for _, cs := range sites {
+				i := paramIndex(prm)
+				if i >= len(cs.Call.Common().Args) || !isStateValue(cs.Call.Common().Args[i], d+1) {
+					return false
+				}
+			}
+			return true
+		}
+		return false
+	}
+	for _, f := range c.Fns {
+		set := map[string]bool{}
+		eachInstr(f, func(r instrRef) {
+			b, ok := r.In.(*ssa.BinOp)
+			if !ok || (b.Op != token.EQL && b.Op != token.NEQ) {
+				return
+			}
+			x, y := b.X, b.Y
+			if _, isC := x.(*ssa.Const); isC {
+				x, y = y, x
+			}
+			k, isC := y.(*ssa.Const)
+			if !isC || k.Value == nil || constStr(k) == "" {
+				return
+			}
+			if isStateValue(x, 0) {
+				set[constStr(k)] = true
+			}
+		})
+		if len(set) > 0 {
+			out[f] = set
+		}
+	}
+	return out
+}
+
+// ------------------------------------------------------------------ RD4
+
+func init() {
+	register(&Rule{ID: "RD4", Min: 5, Run: ruleRD4,
+		Doc: "closedness-siblings-agree: the functions that decide whether an item still counts as unfinished work (epic completeness, prune eligibility, the derived state of an epic row, the filters of the active view, blockers) all draw the line at the same place: the State constants they compare are exactly {done, canceled}. A sibling that enumerates the open states instead and forgets one (error) treats failed work as finished: the epic is complete / pruned / hidden while a child still needs attention"})
+}
+
+var closednessRoles = []string{"derivedEpicState", "filterEpicChildrenForList", "filterAndCollapseNodesImpl", "filterActiveTasks", "getBlockers", "isEpicComplete", "selectPruneTargets", "computePruneStats"}
+
+func ruleRD4(c *Ctx) {
+	sets := c.stateConstSets()
+	for _, name := range closednessRoles {
+		f := c.ErgoFn(name)
+		if f == nil {
+			continue // merged or removed: the floor keeps the rule from passing vacuously
+		}
+		set := map[string]bool{}
+		// the role's code: the function, the private helpers it calls, and predicates it passes around as values
+		unit := c.predUnit(f)
+		inU := map[*ssa.Function]bool{}
+		for _, g := range unit {
+			inU[g] = true
+		}
+		for i := 0; i < len(unit); i++ {
+			eachInstr(unit[i], func(r instrRef) {
+				for _, op := range r.In.Operands(nil) {
+					if g, ok := (*op).(*ssa.Function); ok && c.InModule(g) && g.Blocks != nil && !inU[g] && !c.opaqueHelper(g) {
+						inU[g] = true
+						unit = append(unit, g)
+					}
+				}
+			})
+		}
+		for _, g := range unit {
+			for k := range sets[g] {
+				set[k] = true
+			}
+		}
+		c.check(sameSet(set, "done", "canceled"), c.Name(f), "closed-states", c.FnPos(f), "distinguishes finished from unfinished work by State in {done, canceled}",
+			"compares State with "+setString(set)+" where its siblings use exactly {canceled,done}: a state left out of the enumeration (e.g. error) is treated as finished work")
+	}
 }
